@@ -2,7 +2,7 @@
    Statements only; proofs in Proofs/ItsFacts.v. *)
 From Coq Require Import String List NArith Lia Bool.
 From Ax Require Import Lib.Bytes Lib.Mvx Lib.SolAbi Lib.Keccak Model.Check Model.Env Model.Gateway Model.TokenManager Model.Its
-     Proofs.GatewayMsgs Proofs.TMFacts Proofs.ItsFacts Proofs.ItsWorld Proofs.ItsMore Gen.Generated.
+     Proofs.GatewayMsgs Proofs.TMFacts Proofs.ItsFacts Proofs.ItsWorld Proofs.ItsMore Proofs.ItsApprovals Gen.Generated.
 Import ListNotations.
 Open Scope N_scope.
 
@@ -48,10 +48,36 @@ Section C19.
     length p = 32%nat -> length p' = 32%nat -> length m = 32%nat -> length m' = 32%nat -> length t = 32%nat -> length t' = 32%nat ->
     p ++ m ++ t ++ d = p' ++ m' ++ t' ++ d' -> p = p' /\ m = m' /\ t = t' /\ d = d'.
   Proof. exact salt_preimage_inj. Qed.
+
+  (* ---- world level, every operation (Proofs/ItsApprovals.v) ----
+     no operation other than approve / revoke / deploy-with-minter touches the approvals table (all 25 kinds), and a
+     non-empty approval that appears or changes was written by approveDeployRemoteInterchainToken, called by an
+     account holding the minter role of that token's manager at that moment, under exactly the key
+     (caller, token id of (deployer, salt), destination chain) with the hash of the named destination minter;
+     revocation and use only ever empty a slot *)
+  Variable verify : bytes -> bytes -> bytes -> bool.
+  Theorem c19_approvals_frame : forall w o,
+    match o with
+    | IApproveRemote _ _ _ _ _ | IRevokeRemote _ _ _ _ | IDeployRemote _ _ _ _ _ => True
+    | _ => aps w (fst (istep H verify w o))
+    end.
+  Proof. exact (istep_approvals_frame H verify). Qed.
+  Theorem c19_approval_origin : forall w o key w', w' = fst (istep H verify w o) ->
+    appr w' key <> [] -> appr w' key <> appr w key ->
+    exists c deployer salt dchain dminter l1,
+      o = IApproveRemote c deployer salt dchain dminter /\
+      let token_id := interchain_token_id H (iw_its w) deployer salt in
+      key = approval_key H (ic_caller c) token_id dchain /\
+      appr w' key = H dminter /\
+      check_token_minter (w_led_ w l1) c token_id (ic_caller c) = true.
+  Proof. exact (approval_origin H verify). Qed.
 End C19.
 Print Assumptions c19_approve.
 Print Assumptions c19_deploy.
 Print Assumptions c19_single_use.
+Print Assumptions c19_approvals_frame.
+Print Assumptions c19_approval_origin.
 Example pin_approval_fields : gen_its_DeployApproval_fields = ["minter"; "token_id"; "destination_chain"]%string := eq_refl.
 Example pin_approval_prefix : gen_its_PREFIX_DEPLOY_APPROVAL = PREFIX_APPROVAL := eq_refl.
 Check c19_deploy.
+Check c19_approval_origin.
